@@ -1,8 +1,9 @@
 #!/bin/sh
-# tools/bnagain.sh C01,C05,...: re-run the recorded behaviour-preserving rewrites against the named checks
+# tools/bnagain.sh C01,C05,... [OUTDIR]: re-run the recorded behaviour-preserving rewrites against the named checks
 cd /verif
-mkdir -p work/bneval2
+OUT=${2:-work/bneval2}
+mkdir -p $OUT
 for d in seeded/benign/*/; do
   id=$(basename $d)
-  python3 tools/bneval.py /verif/seeded/benign/$id --among=$1 > work/bneval2/$id.json 2>&1
+  python3 tools/bneval.py /verif/seeded/benign/$id --among=$1 > $OUT/$id.json 2>&1
 done
